@@ -102,6 +102,33 @@ def scan (cur : Bytes) : List Bytes → Bool × Bytes × List Bytes
   | [] => (false, cur, [])
   | l :: rest => (true, l, rest)
 
+/-- a set of ints (`map[int]struct{}`) as an ascending duplicate-free list: `m[k] = struct{}{}` -/
+def setInsert (m : List Int) (k : Int) : List Int :=
+  match m with
+  | [] => [k]
+  | x :: xs => if k < x then k :: x :: xs else if k == x then x :: xs else x :: setInsert xs k
+
+/-- `delete(m, k)` -/
+def setErase (m : List Int) (k : Int) : List Int := m.filter (· != k)
+
+/-- `sort.Ints` -/
+def sortInts (l : List Int) : List Int := l.mergeSort (fun a b => decide (a ≤ b))
+
+/-- `sort.Slice(x, less)` for a strict total order `less` on the elements present (then the result
+does not depend on the algorithm; `sort.Slice` is not stable, so nothing is claimed otherwise) -/
+def sortByLess {α : Type} (less : α → α → Bool) (l : List α) : List α := l.mergeSort (fun a b => !less b a)
+
+/-- `sort.Search(n, f)`: Go's binary search, transcribed (`i, j := 0, n; for i < j { h := int(uint(i+j) >> 1); if !f(h) { i = h + 1 } else { j = h } }; return i`) -/
+def searchLoop (f : Int → Option Bool) : Nat → Int → Int → Option Int
+  | 0, i, _ => some i
+  | fuel + 1, i, j =>
+    if i < j then do
+      let h := (i + j) / 2
+      if !(← f h) then searchLoop f fuel (h + 1) j else searchLoop f fuel i h
+    else some i
+
+def searchGo (n : Int) (f : Int → Option Bool) : Option Int := searchLoop f (n.toNat + 1) 0 n
+
 /-- An `io.Writer` that accepts `room` more bytes and then fails (what the properties quantify over:
 "the destination starts failing after any number of bytes"); `out` = the bytes accepted so far. -/
 structure Wr where
